@@ -30,8 +30,26 @@ def damage(body, f):
     return bytes(b)
 
 
-def text_space(n, thin=1):
-    """storage faults on a text file of n bytes (deterministic order); thin > 1 strides the per-byte faults of big fixtures"""
+def text_space(n, thin=1, body=None, delims=b''):
+    """storage faults on a text file of n bytes (deterministic order); thin > 1 strides the per-byte faults of big fixtures.
+    With body/delims: also a truncation right after every delimiter character and after the blanks that follow it
+    (what a crashed writer leaves when it dies between two tokens)."""
+    if body is not None and delims:
+        seen = set()
+        i = 0
+        while i < n:
+            if body[i] in delims:
+                j = i + 1
+                cuts = [j]
+                while j < n and body[j] in b' \t':
+                    j += 1
+                if j > i + 1:
+                    cuts.append(j)
+                for c in cuts:
+                    if c < n and c not in seen and c % (8 * thin) != 0:
+                        seen.add(c)
+                        yield ('trunc', c)
+            i += 1
     for off in range(0, n, thin):
         yield ('flip', off, 0)
     for off in range(1, n, 3 * thin):
